@@ -152,6 +152,7 @@ type FuncCtx struct {
 	lemmaFacts []*Term // function-level lemma instances evaluated at exit
 	defs     map[string]*Term // definitions of the named intermediate values
 	axiomCache map[string]*Term
+	retPaths []*Term // path conditions at the returns (vacuity:returns)
 }
 
 func shortPkg(p string) string {
